@@ -55,6 +55,17 @@ PROPS = {
         "assumptions": STD_ASSUME_PURE + ["broadcast channel never overflows (each connection task sees every SendOwnState), see DESIGN.md C11/C14",
                                            "new_optimistic_peers returns at most MAX_OPTIMISTIC peers, each currently choked and interested (read off the code: choose() of that filtered list)"],
     },
+    "C09": {
+        "lean_modules": ["RdestModel.Props.C09"],
+        "cases": {"quick": 400, "thorough": 12000},
+        "rule": "scripts for the real connection task: after the handshake, block requests with index in/out of range, begin in "
+                "{0,1,16,len-1,len,len+1,2^31,2^32-6,2^32-1}, length in {0,1,6,10,16,64,16384,16385,2^32-1} against stored pieces of 64..20000 bytes; "
+                "manager replies load(present/absent file)/ignore; interleaved Choke/Unchoke broadcasts, repeated requests for the loaded piece, "
+                "switches to another piece; per event outputs compared with the model; the monitor P09 of the theorem evaluated on the "
+                "implementation's trace; a panic of the task is a violation; distinct = distinct scripts",
+        "assumptions": STD_ASSUME_PURE + ["the manager answers LoadAndSendPiece only for owned pieces of an unchoked peer (Peer::handle_request, modelled in the manager model)",
+                                           "the piece file holds the verified bytes (C01)"],
+    },
     "C08": {
         "lean_modules": ["RdestModel.Props.C08"],
         "cases": {"quick": 400, "thorough": 12000},
